@@ -331,11 +331,16 @@ package server
 //@ ghost var progressForgotten bool
 //@ func (*replica).setLatestOffset serves C02, C04
 //@   requires r != nil
+//@   modifies r.offset
 //@   ensures r.offset == offset
 //@ func (*partition).resetISRProgress serves C02, C04
 //@   requires p != nil
 //@   assumes p.srv != nil && p.srv.config != nil && (forall k string :: (k in p.isr) ==> p.isr[k] != nil)
-//@   ensures assumed [every-in-sync-replica-starts-the-term-afresh] forall id string :: (id in p.isr) && p.isr[id] != nil && id != p.srv.config.Clustering.ServerID ==> p.isr[id].offset == -1
+// (every member of the in-sync set has its own replica object: the map is built with one new object per replica id)
+//@   assumes [one-replica-object-per-member] forall a string, b string :: (a in p.isr) && (b in p.isr) && a != b ==> p.isr[a] != p.isr[b]
+//@   ensures [every-in-sync-replica-starts-the-term-afresh] forall id string :: (id in p.isr) && p.isr[id] != nil && id != p.srv.config.Clustering.ServerID ==> p.isr[id].offset == -1
+//@   loop 1 invariant p.srv != nil && p.srv.config != nil && (forall k string :: (k in p.isr) ==> p.isr[k] != nil) && (forall a string, b string :: (a in p.isr) && (b in p.isr) && a != b ==> p.isr[a] != p.isr[b])
+//@   loop 1 invariant [members-done-so-far-start-afresh] forall id string :: visited(id) && (id in p.isr) && id != p.srv.config.Clustering.ServerID ==> p.isr[id].offset == -1
 // (the obligation itself is a clause of becomeLeader's contract, further down with the one for C11)
 
 // Leader side (C02): which replication requests count, and when a replica may rejoin the in-sync set.
